@@ -119,8 +119,10 @@ def opts_str(charge=None, ion_type='p', monoisotopic=True, isotope=0, loss=0.0, 
                       fnum(loss), ad, iso, str(int(use_isotope_on_mods)), 'None' if precision is None else str(precision)])
 
 
-def line(op, a, kw, overrides=None, prefix=()):
+def line(op, a, kw, overrides=None, prefix=(), concrete_rules=False):
     res, st = env_strings(a, overrides)
+    if concrete_rules:
+        st = 'P'
     return '\t'.join([op, *prefix, annot.dump(a), res, st, opts_str(**kw)])
 
 
